@@ -14,7 +14,6 @@ func (ep *episode) runLoad() *Result {
 func cmdSelftest(args []string) int { return 2 }
 func cmdExpand(args []string) int   { return 2 }
 
-func planC09(tier string, root *simcore.RNG) *plan { return &plan{prop: "C09", level: "exploration"} }
 func planC10(tier string, root *simcore.RNG) *plan { return &plan{prop: "C10", level: "exploration"} }
 func planC13(tier string, root *simcore.RNG) *plan { return &plan{prop: "C13", level: "exploration"} }
 func planC14(tier string, root *simcore.RNG) *plan {
